@@ -41,6 +41,18 @@ int main(int argc, char** argv) {
     if (!m) { end_case(); continue; }
     bool sleep = (m->opt.enableflags & mjENBL_SLEEP) != 0;
     bool rk4 = m->opt.integrator == mjINT_RK4;
+    // a user-sized, tight arena (what <size memory="..."/> sets) in some cases: contacts, constraint rows and island arrays then compete with
+    // the stack for room, warnings and dropped rows become part of the trajectory, and anything that makes their allocation depend on what an
+    // instance did earlier (high-water marks, leftovers) shows as a difference between the twins
+    bool tight = false;
+    if (r.chance(0.12)) {
+      mjData* t = mj_makeData(m);
+      Rng rt(s ^ 0x7157A4E4ULL);
+      bool e = ND_GUARD({ for (int k = 0; k < 15; k++) { for (int i = 0; i < m->nu; i++) t->ctrl[i] = rt.uniform(-1, 1); mj_step(m, t); } });
+      size_t need = (size_t)t->maxuse_arena;
+      mj_deleteData(t);
+      if (!e && need > 0) { m->narena = (mjtSize)((((size_t)(need * rt.uniform(0.9, 1.5))) + 63) & ~(size_t)63); tight = true; count("tight_arena_models"); mdesc += "[tight arena]"; }
+    }
     // ---- scenario: op list with twin points
     int nops = r.range(6, 40);
     struct Item { bool twin; int route; Op op; };
